@@ -128,9 +128,10 @@ def e2_scenarios(tier):
   late = dict(script="late-subscriber", kinds=("fifo",))
   resub = dict(script="resubscribe", kinds=("fifo",))
   two = dict(script="two-kinds", kinds=("fifo", "lifo"))
+  during = dict(script="resubscribe-during-delivery", kinds=("fifo",))
   if tier == "quick":
-    return [(late, 32), (resub, 32)]        # thorough uses K=40, where the adequacy query shows every behaviour is covered
-  return [(late, 40), (resub, 40), (two, 38)]
+    return [(late, 32), (during, 32)]        # thorough uses K=40, where the adequacy query shows every behaviour is covered
+  return [(late, 40), (resub, 40), (during, 40), (two, 38)]
 
 
 DIFF_KW = dict(script="two-kinds", kinds=("fifo", "lifo"))
